@@ -69,17 +69,18 @@ WTok(ctx) == {[c |-> c, e |-> e, s |-> ""] : c \in Classes, e \in {"U", "L"}}
 WStr(ctx, n) == UNION {[1..k -> WTok(ctx)] : k \in 0..n}
 SymTok(s, e) == [c |-> "sym", e |-> e, s |-> s]
 SymSp == {"r", "U", "L", "M"}
-Syms(k, set) == {<<SymTok(k \o ":" \o s, e)>> : s \in set, e \in SymSp}
+\* every symbol raw; the symbols in `escd` also in every escaped spelling (all %XX, all %xx, alternating)
+Syms(k, set, escd) == {<<SymTok(k \o ":" \o s, "r")>> : s \in set} \cup {<<SymTok(k \o ":" \o s, e)>> : s \in escd, e \in SymSp \ {"r"}}
 \* wire values a field of kind k may be given (all are valid literals of the kind)
 DecVals(k, ctx, n) ==
-  CASE k = "bool" -> Syms("bool", {"true", "false"})
-    [] k \in IntKinds -> Syms(k, {"0", "1", "min", "max"})
-    [] k = "ntu32" -> Syms("u32", {"0", "max"})
-    [] k = "optu32" -> Syms("u32", {"0", "max"})
-    [] k \in {"f32", "f64"} -> Syms(k, {"0", "1.5", "-2.5e-3", "max", "nan"})
+  CASE k = "bool" -> Syms("bool", {"true", "false"}, {"true"})
+    [] k \in IntKinds -> Syms(k, {"0", "1", "min", "max"}, {"min"})
+    [] k = "ntu32" -> Syms("u32", {"0", "max"}, {"max"})
+    [] k = "optu32" -> Syms("u32", {"0", "max"}, {"0"})
+    [] k \in {"f32", "f64"} -> Syms(k, {"0", "1.5", "-2.5e-3", "max", "nan"}, {"-2.5e-3", "nan"})
     [] k \in {"str", "ntstr", "optstr"} -> WStr(ctx, n)
     [] k = "char" -> {w \in WStr(ctx, 1) : Len(w) = 1}
-    [] k = "enum" -> Syms("enum", {"A", "Bee", "dark_red"})
+    [] k = "enum" -> Syms("enum", {"A", "Bee", "dark_red"}, {"Bee", "dark_red"})
 \* a few values per kind for the scenarios that vary order / extra pairs / absence
 DecFew(k, ctx) ==
   CASE k \in {"str", "ntstr", "optstr"} -> {<<>>, <<[c |-> "al", e |-> "r", s |-> ""]>>, <<[c |-> "amp", e |-> "U", s |-> ""], [c |-> "u3", e |-> "L", s |-> ""]>>}
